@@ -114,37 +114,79 @@ package keeper
 // running sums over the first n entries
 //@ ghost func sumTo(m map[int]int, n int) int = n <= 0 ? 0 : sumTo(m, n - 1) + m[n - 1]
 
-// Store-backed accessors: trusted summaries of transient store + big-endian codec (trusted_base).
+// ---- REPRESENTATION (helper tr): the abstract views ARE the content of the module's transient KV store ----------------
+// The transient store of layer l is the KV store kvId(l, evmTransientKey()) of prelude/42_cpc_store.spec. A `representation`
+// DEFINES its ghost variable as a function of that store; it is assumed at the entry of every function (the views have no
+// other meaning), and the accessors below — the only code that touches the store (grep transientKey: keeper.go only) — are
+// VERIFIED against it: their bodies read / write the raw store (`hidden modifies`: the concrete state behind the views,
+// callers reason over the views only), at their exits the views are re-derived from the final store (`rederives`) and the
+// abstract ensures + frame (every OTHER view, every other layer unchanged) are proved. `trusted requires`: the keeper is the
+// wired one (app.go: one NewKeeper call with tkeys[evmtypes.TransientKey]; Keeper is immutable, T4).
+// Layout (x/evm/types/key.go): [5] -> be64(count); [6]++be64(i) -> be64(gas of tx i); [7]++be64(i) -> be64(log count of tx i);
+// [8]++be64(i) -> receipt bytes of tx i; [9] / [10] / [11] -> [1] when the flag is set (absent otherwise).
+// An absent entry reads as 0 (sdk.BigEndianToUint64(nil) == 0). Store invariant (tr_store_wf_*: assumed at entry like the
+// representation, re-established by every writer — ensures C13.tr_store_wf): a present counter entry is 8 bytes long
+// (BigEndianToUint64 panics on 1..7 bytes).
+//@ representation tr_count_rep: forall l int :: {trCount[l]} trCount[l] == (kvHas[kvId(l, evmTransientKey())][b1(5)] ? be64val(bsub(kvVal[kvId(l, evmTransientKey())][b1(5)], 0, 8)) : 0)
+//@ representation tr_gas_rep: forall l int, i int :: {trGas[l][i]} trGas[l][i] == ((0 <= i && i < pow2(64) && kvHas[kvId(l, evmTransientKey())][bcat(b1(6), be64(i))]) ? be64val(bsub(kvVal[kvId(l, evmTransientKey())][bcat(b1(6), be64(i))], 0, 8)) : 0)
+//@ representation tr_logs_rep: forall l int, i int :: {trLogs[l][i]} trLogs[l][i] == ((0 <= i && i < pow2(64) && kvHas[kvId(l, evmTransientKey())][bcat(b1(7), be64(i))]) ? be64val(bsub(kvVal[kvId(l, evmTransientKey())][bcat(b1(7), be64(i))], 0, 8)) : 0)
+//@ representation tr_receipt_rep: forall l int, i int :: {trReceipt[l][i]} trReceipt[l][i] == ((0 <= i && i < pow2(64) && kvHas[kvId(l, evmTransientKey())][trReceiptKeyB(i)]) ? kvVal[kvId(l, evmTransientKey())][trReceiptKeyB(i)] : bempty())
+//@ representation tr_has_receipt_rep: forall l int, i int :: {trHasReceipt[l][i]} trHasReceipt[l][i] == (0 <= i && i < pow2(64) && kvHas[kvId(l, evmTransientKey())][trReceiptKeyB(i)] && blen(kvVal[kvId(l, evmTransientKey())][trReceiptKeyB(i)]) > 0)
+//@ representation tr_flag_nonce_rep: forall l int :: {trFlagNonce[l]} trFlagNonce[l] == kvHas[kvId(l, evmTransientKey())][b1(9)]
+//@ representation tr_flag_nobasefee_rep: forall l int :: {trFlagNoBaseFee[l]} trFlagNoBaseFee[l] == kvHas[kvId(l, evmTransientKey())][b1(10)]
+//@ representation tr_flag_paid_rep: forall l int :: {trFlagPaid[l]} trFlagPaid[l] == kvHas[kvId(l, evmTransientKey())][b1(11)]
+// Store invariant (assumed at entry like the representation; every writer re-establishes it: C13.tr_store_wf): present
+// counter / gas / log-count entries are 8 bytes long; a present flag entry is the one byte [1].
+//@ ghost macro trStoreWf(l int) bool = (kvHas[kvId(l, evmTransientKey())][b1(5)] ==> blen(kvVal[kvId(l, evmTransientKey())][b1(5)]) == 8) && (forall i int :: {kvHas[kvId(l, evmTransientKey())][bcat(b1(6), be64(i))]} kvHas[kvId(l, evmTransientKey())][bcat(b1(6), be64(i))] ==> blen(kvVal[kvId(l, evmTransientKey())][bcat(b1(6), be64(i))]) == 8) && (forall i int :: {kvHas[kvId(l, evmTransientKey())][bcat(b1(7), be64(i))]} kvHas[kvId(l, evmTransientKey())][bcat(b1(7), be64(i))] ==> blen(kvVal[kvId(l, evmTransientKey())][bcat(b1(7), be64(i))]) == 8) && (kvHas[kvId(l, evmTransientKey())][b1(9)] ==> kvVal[kvId(l, evmTransientKey())][b1(9)] == b1(1)) && (kvHas[kvId(l, evmTransientKey())][b1(10)] ==> kvVal[kvId(l, evmTransientKey())][b1(10)] == b1(1)) && (kvHas[kvId(l, evmTransientKey())][b1(11)] ==> kvVal[kvId(l, evmTransientKey())][b1(11)] == b1(1))
+//@ axiom tr_store_wf_count: forall l int :: {kvHas[kvId(l, evmTransientKey())][b1(5)]} kvHas[kvId(l, evmTransientKey())][b1(5)] ==> blen(kvVal[kvId(l, evmTransientKey())][b1(5)]) == 8
+//@ axiom tr_store_wf_gas: forall l int, i int :: {kvHas[kvId(l, evmTransientKey())][bcat(b1(6), be64(i))]} kvHas[kvId(l, evmTransientKey())][bcat(b1(6), be64(i))] ==> blen(kvVal[kvId(l, evmTransientKey())][bcat(b1(6), be64(i))]) == 8
+//@ axiom tr_store_wf_logs: forall l int, i int :: {kvHas[kvId(l, evmTransientKey())][bcat(b1(7), be64(i))]} kvHas[kvId(l, evmTransientKey())][bcat(b1(7), be64(i))] ==> blen(kvVal[kvId(l, evmTransientKey())][bcat(b1(7), be64(i))]) == 8
+//@ axiom tr_store_wf_flags: forall l int :: {kvId(l, evmTransientKey())} (kvHas[kvId(l, evmTransientKey())][b1(9)] ==> kvVal[kvId(l, evmTransientKey())][b1(9)] == b1(1)) && (kvHas[kvId(l, evmTransientKey())][b1(10)] ==> kvVal[kvId(l, evmTransientKey())][b1(10)] == b1(1)) && (kvHas[kvId(l, evmTransientKey())][b1(11)] ==> kvVal[kvId(l, evmTransientKey())][b1(11)] == b1(1))
+// what the verified bodies assume about their environment (trusted requires): readers — the keeper is the wired one; writers —
+// also the background facts of prelude/4b_tr_transient.spec (layers are distinct stores, be64 codec, prefixed keys).
+//@ ghost macro trReader(tk ref) bool = tk == evmTransientKey()
+//@ ghost macro trWriter(tk ref) bool = tk == evmTransientKey() && kvLayersDistinct(evmTransientKey()) && be64Codec() && prefixedKeys()
+
+// Store-backed accessors.
 //@ func (k Keeper) GetRawTxCountTransient(ctx sdk.Context) uint64
-//@   assumed
+//@   deterministic[C01.no_node_local_source]
+//@   trusted requires trReader(payload(k.transientKey))
 //@   modifies nothing
-//@   ensures result == trCount[layer(ctx)]
-//@   panics never
+//@   ensures[C13.tr_count_read] result == trCount[layer(ctx)]
+//@   panics[C13.tr_count_read_never_panics] never
 //@ func (k Keeper) IncreaseTxCountTransient(ctx sdk.Context)
-//@   assumed
+//@   deterministic[C01.no_node_local_source]
+//@   trusted requires trWriter(payload(k.transientKey))
+//@   rederives
 //@   modifies trCount[layer(ctx)]
-//@   ensures trCount[layer(ctx)] == (old(trCount[layer(ctx)]) + 1) % pow2(64)
-//@   panics never
+//@   hidden modifies kvHas[kvId(layer(ctx), payload(k.transientKey))], kvVal[kvId(layer(ctx), payload(k.transientKey))]
+//@   ensures[C13.tr_count_increased] trCount[layer(ctx)] == (old(trCount[layer(ctx)]) + 1) % pow2(64)
+//@   ensures[C13.tr_store_wf] trStoreWf(layer(ctx))
+//@   panics[C13.tr_count_increase_never_panics] never
 //@ func (k Keeper) GetGasUsedForTdxIndexTransient(ctx sdk.Context, txIdx uint64) uint64
-//@   assumed
+//@   deterministic[C01.no_node_local_source]
+//@   trusted requires trReader(payload(k.transientKey))
 //@   modifies nothing
-//@   ensures result == trGas[layer(ctx)][txIdx]
-//@   panics never
+//@   ensures[C05.tr_gas_read,C13.tr_gas_read] result == trGas[layer(ctx)][txIdx]
+//@   panics[C05.tr_gas_read_never_panics] never
 //@ func (k Keeper) IsSenderPaidTxFeeInAnteHandle(ctx sdk.Context) bool
-//@   assumed
+//@   deterministic[C01.no_node_local_source]
+//@   trusted requires trReader(payload(k.transientKey)) && prefixedKeys()
 //@   modifies nothing
-//@   ensures result == trFlagPaid[layer(ctx)]
-//@   panics never
+//@   ensures[C04.tr_flag_paid_read,C05.tr_flag_paid_read] result == trFlagPaid[layer(ctx)]
+//@   panics[C04.tr_flag_paid_read_never_panics] never
 //@ func (k Keeper) IsSenderNonceIncreasedByAnteHandle(ctx sdk.Context) bool
-//@   assumed
+//@   deterministic[C01.no_node_local_source]
+//@   trusted requires trReader(payload(k.transientKey)) && prefixedKeys()
 //@   modifies nothing
-//@   ensures result == trFlagNonce[layer(ctx)]
-//@   panics never
+//@   ensures[C06.tr_flag_nonce_read] result == trFlagNonce[layer(ctx)]
+//@   panics[C06.tr_flag_nonce_read_never_panics] never
 //@ func (k Keeper) IsNoBaseFeeEnabled(ctx sdk.Context) bool
-//@   assumed
+//@   deterministic[C01.no_node_local_source]
+//@   trusted requires trReader(payload(k.transientKey)) && prefixedKeys()
 //@   modifies nothing
-//@   ensures result == trFlagNoBaseFee[layer(ctx)]
-//@   panics never
+//@   ensures[C05.tr_flag_nobasefee_read] result == trFlagNoBaseFee[layer(ctx)]
+//@   panics[C05.tr_flag_nobasefee_read_never_panics] never
 
 //@ func (k Keeper) GetTxCountTransient(ctx sdk.Context) uint64
 //@   deterministic[C01.no_node_local_source]
@@ -153,21 +195,35 @@ package keeper
 //@   panics never
 
 //@ func (k Keeper) SetGasUsedForCurrentTxTransient(ctx sdk.Context, gas uint64)
-//@   assumed
+//@   deterministic[C01.no_node_local_source]
+//@   trusted requires trWriter(payload(k.transientKey))
+//@   rederives
 //@   modifies trGas[layer(ctx)]
-//@   ensures trGas[layer(ctx)] == old(trGas[layer(ctx)])[max(1, trCount[layer(ctx)]) - 1 := gas]
-//@   panics never
+//@   hidden modifies kvHas[kvId(layer(ctx), payload(k.transientKey))], kvVal[kvId(layer(ctx), payload(k.transientKey))]
+//@   ensures[C05.tr_gas_written,C13.tr_gas_written] trGas[layer(ctx)] == old(trGas[layer(ctx)])[max(1, trCount[layer(ctx)]) - 1 := gas]
+//@   ensures[C05.tr_store_wf,C13.tr_store_wf] trStoreWf(layer(ctx))
+//@   panics[C05.tr_gas_written_never_panics] never
 //@ func (k Keeper) SetLogCountForCurrentTxTransient(ctx sdk.Context, count uint64)
-//@   assumed
+//@   deterministic[C01.no_node_local_source]
+//@   trusted requires trWriter(payload(k.transientKey))
+//@   rederives
 //@   modifies trLogs[layer(ctx)]
-//@   ensures trLogs[layer(ctx)] == old(trLogs[layer(ctx)])[max(1, trCount[layer(ctx)]) - 1 := count]
-//@   panics never
+//@   hidden modifies kvHas[kvId(layer(ctx), payload(k.transientKey))], kvVal[kvId(layer(ctx), payload(k.transientKey))]
+//@   ensures[C13.tr_logs_written] trLogs[layer(ctx)] == old(trLogs[layer(ctx)])[max(1, trCount[layer(ctx)]) - 1 := count]
+//@   ensures[C13.tr_store_wf] trStoreWf(layer(ctx))
+//@   panics[C13.tr_logs_written_never_panics] never
+// (the former summary said `panics never`: store.Set panics on a nil value — types.AssertValidValue; both callers pass the
+// non-empty output of Receipt.MarshalBinary)
 //@ func (k Keeper) SetTxReceiptForCurrentTxTransient(ctx sdk.Context, receiptBz []byte)
-//@   assumed
+//@   deterministic[C01.no_node_local_source]
+//@   trusted requires trWriter(payload(k.transientKey))
+//@   rederives
 //@   modifies trReceipt[layer(ctx)], trHasReceipt[layer(ctx)]
-//@   ensures trReceipt[layer(ctx)] == old(trReceipt[layer(ctx)])[max(1, trCount[layer(ctx)]) - 1 := bytes(receiptBz)]
-//@   ensures trHasReceipt[layer(ctx)] == old(trHasReceipt[layer(ctx)])[max(1, trCount[layer(ctx)]) - 1 := len(receiptBz) > 0]
-//@   panics never
+//@   hidden modifies kvHas[kvId(layer(ctx), payload(k.transientKey))], kvVal[kvId(layer(ctx), payload(k.transientKey))]
+//@   ensures[C13.tr_receipt_written] trReceipt[layer(ctx)] == old(trReceipt[layer(ctx)])[max(1, trCount[layer(ctx)]) - 1 := bytes(receiptBz)]
+//@   ensures[C13.tr_has_receipt_written,C20.tr_has_receipt_written] trHasReceipt[layer(ctx)] == old(trHasReceipt[layer(ctx)])[max(1, trCount[layer(ctx)]) - 1 := len(receiptBz) > 0]
+//@   ensures[C13.tr_store_wf] trStoreWf(layer(ctx))
+//@   panics[C13.tr_receipt_write_panics_only_on_nil,C20.tr_receipt_write_panics_only_on_nil] only_if receiptBz == nil
 
 // ---------------------------------------------------------------------------------------------
 // state_transition.go
@@ -314,15 +370,34 @@ package keeper
 //@ import cmtbytes "github.com/cometbft/cometbft/libs/bytes"
 
 //@ func (k Keeper) SetFlagSenderNonceIncreasedByAnteHandle(ctx sdk.Context, increased bool)
-//@   assumed
+//@   deterministic[C01.no_node_local_source]
+//@   trusted requires trWriter(payload(k.transientKey))
+//@   rederives
 //@   modifies trFlagNonce[layer(ctx)]
-//@   ensures trFlagNonce[layer(ctx)] == increased
-//@   panics never
+//@   hidden modifies kvHas[kvId(layer(ctx), payload(k.transientKey))], kvVal[kvId(layer(ctx), payload(k.transientKey))]
+//@   ensures[C06.tr_flag_nonce_written] trFlagNonce[layer(ctx)] == increased
+//@   ensures[C06.tr_store_wf] trStoreWf(layer(ctx))
+//@   panics[C06.tr_flag_nonce_written_never_panics] never
 //@ func (k Keeper) SetFlagSenderPaidTxFeeInAnteHandle(ctx sdk.Context, paid bool)
-//@   assumed
+//@   deterministic[C01.no_node_local_source]
+//@   trusted requires trWriter(payload(k.transientKey))
+//@   rederives
 //@   modifies trFlagPaid[layer(ctx)]
-//@   ensures trFlagPaid[layer(ctx)] == paid
-//@   panics never
+//@   hidden modifies kvHas[kvId(layer(ctx), payload(k.transientKey))], kvVal[kvId(layer(ctx), payload(k.transientKey))]
+//@   ensures[C04.tr_flag_paid_written,C05.tr_flag_paid_written] trFlagPaid[layer(ctx)] == paid
+//@   ensures[C04.tr_store_wf] trStoreWf(layer(ctx))
+//@   panics[C04.tr_flag_paid_written_never_panics] never
+// (helper tr) the third flag setter (no caller outside tests): with it EVERY function that touches the module's transient store
+// is a verified accessor.
+//@ func (k Keeper) SetFlagEnableNoBaseFee(ctx sdk.Context, enable bool)
+//@   deterministic[C01.no_node_local_source]
+//@   trusted requires trWriter(payload(k.transientKey))
+//@   rederives
+//@   modifies trFlagNoBaseFee[layer(ctx)]
+//@   hidden modifies kvHas[kvId(layer(ctx), payload(k.transientKey))], kvVal[kvId(layer(ctx), payload(k.transientKey))]
+//@   ensures[C05.tr_flag_nobasefee_written] trFlagNoBaseFee[layer(ctx)] == enable
+//@   ensures[C05.tr_store_wf] trStoreWf(layer(ctx))
+//@   panics[C05.tr_flag_nobasefee_written_never_panics] never
 
 // the fee market keeper as x/evm sees it (implemented by x/feemarket/keeper.Keeper.GetBaseFee = GetParams(ctx).BaseFee)
 //@ func (fk evmtypes.FeeMarketKeeper) GetBaseFee(ctx sdk.Context) sdkmath.Int
@@ -415,11 +490,11 @@ package keeper
 // ---------------------------------------------------------------------------------------------
 //@ import storetypes "cosmossdk.io/store/types"
 
-// Representation of the per-transaction receipts in the transient store (TRUSTED link between the summaries of the
-// store-backed setters above and the raw reads of GetTxReceiptsTransient): under the module's transient store key, the
-// entry of index i is present iff a non-empty receipt was recorded for i, and holds those bytes.
+// Representation of the per-transaction receipts in the transient store: tr_receipt_rep / tr_has_receipt_rep above (the entry
+// of index i under the module's transient store key; "has a receipt" = present and non-empty). GetTxReceiptsTransient reads the
+// raw store; the link to the views written by SetTxReceiptForCurrentTxTransient is those two definitions (formerly a trusted
+// axiom tr_receipt_representation next to assumed setters).
 //@ ghost func evmTransientKey() ref
-//@ axiom tr_receipt_representation: forall l int, i int :: kvHas[kvId(l, evmTransientKey())][trReceiptKeyB(i)] == trHasReceipt[l][i] && (trHasReceipt[l][i] ==> (kvVal[kvId(l, evmTransientKey())][trReceiptKeyB(i)] == trReceipt[l][i] && blen(trReceipt[l][i]) > 0))
 
 //@ func (k Keeper) GetTxReceiptsTransient(ctx sdk.Context) (receipts ethtypes.Receipts)
 //@   deterministic[C01.no_node_local_source]
